@@ -94,6 +94,8 @@ fn main() {
         "cache" => drivers::cache::run(&mut ctx),
         "corner" => drivers::corner::run(&mut ctx),
         "poisson" => drivers::poisson::run(&mut ctx),
+        "resv" => drivers::procs::run_resv(&mut ctx),
+        "procs" => drivers::procs::run_procs(&mut ctx),
         "demand" => drivers::cost::run_demand(&mut ctx),
         d => {
             eprintln!("unknown driver {}", d);
